@@ -192,8 +192,9 @@ class Ctx(object):
             f.write(cfg)
         w = workers or self.workers
         cmd = ['java', '-XX:+UseParallelGC']
-        if xss:
-            cmd.append('-Xss' + xss)
+        # RECURSIVE operators over a few hundred elements overflow the default Java stack (reported by TLC as
+        # "StackOverflowError ... incorrect recursive function definition"): always run with a large thread stack
+        cmd.append('-Xss' + (xss or '256m'))
         if dfs:
             cmd.append('-Dtlc2.tool.queue.IStateQueue=StateDeque')
         cmd += ['-cp', JAR + ':' + CMJAR, 'tlc2.TLC', '-metadir', os.path.join(d, 'md'),
@@ -311,7 +312,9 @@ class Ctx(object):
 
     def known(self, key):
         for e in self.known_findings():
-            if e.get('property') == self.pid and e.get('id') == key and e.get('status') == 'known':
+            # kf_props: other properties whose clauses this check also evaluates (e.g. C14 runs the C01/C04 clauses on
+            # wrap-adjacent sequence numbers): their known findings are known here too
+            if e.get('property') in ((self.pid,) + tuple(getattr(self, 'kf_props', ()))) and e.get('id') == key and e.get('status') == 'known':
                 return e
         return None
 
@@ -590,6 +593,7 @@ def validate_segments(ctx, module, cfgtext, spec_dirs, segments, name=None, max_
     rejected = []
     accepted = 0
     runs = 0
+    ctx.last_unexamined = []
     while alive:
         runs += 1
         evs = []
@@ -621,6 +625,7 @@ def validate_segments(ctx, module, cfgtext, spec_dirs, segments, name=None, max_
         alive = alive[k + 1:]
         if len(rejected) >= max_reruns and alive:
             ctx.extra['unexamined_segments'] = ctx.extra.get('unexamined_segments', 0) + len(alive)
+            ctx.last_unexamined = list(alive)
             ctx.log('%d segments rejected; %d left unexamined' % (len(rejected), len(alive)))
             break
     return accepted, rejected
